@@ -189,7 +189,7 @@ impl<'a> AsyncRead for ScriptedReader<'a> {
                 return match f {
                     RFault::Err(k) => {
                         me.ev(cap, ROut::Err(k));
-                        Poll::Ready(Err(io::Error::new(k, "injected")))
+                        Poll::Ready(Err(shaped_error(k, me.pos + me.reads)))
                     }
                     RFault::Eof => {
                         me.ev(cap, ROut::Eof);
@@ -308,7 +308,7 @@ impl<'a> ScriptedWriter<'a> {
             if self.got.len() >= p && !(f == WFault::InterruptedOnce && self.fault_fired) {
                 self.fault_fired = true;
                 return Poll::Ready(match f {
-                    WFault::Err(k) => Err(io::Error::new(k, "injected")),
+                    WFault::Err(k) => Err(shaped_error(k, self.got.len() + self.writes)),
                     WFault::Zero => Ok(0),
                     WFault::InterruptedOnce => Err(io::Error::new(io::ErrorKind::Interrupted, "injected")),
                 });
@@ -410,6 +410,50 @@ impl io::Write for CountingSink {
     }
     fn flush(&mut self) -> io::Result<()> {
         Ok(())
+    }
+}
+
+/// A wrapper error as TLS / WebSocket / timeout adapters build them: the cause is in `source()`.
+#[derive(Debug)]
+struct Wrapped(io::Error);
+impl std::fmt::Display for Wrapped {
+    fn fmt(&self, f: &mut std::fmt::Formatter<'_>) -> std::fmt::Result {
+        write!(f, "adapter error: {}", self.0)
+    }
+}
+impl std::error::Error for Wrapped {
+    fn source(&self) -> Option<&(dyn std::error::Error + 'static)> {
+        Some(&self.0)
+    }
+}
+
+/// The injected transport error of kind `k`, in one of the shapes real transports produce (chosen
+/// by `salt`): bare kind, kind + text, an OS error code where one maps to `k`, and adapters that wrap
+/// another io::Error of a *different* kind as payload or as `source()`. The property speaks of the
+/// kind of the error the transport returned, i.e. the outer one.
+pub fn shaped_error(k: io::ErrorKind, salt: usize) -> io::Error {
+    use io::ErrorKind as K;
+    let other = if k == K::WouldBlock { K::ConnectionReset } else { K::WouldBlock };
+    match salt % 5 {
+        0 => io::Error::new(k, "injected"),
+        1 => k.into(),
+        2 => {
+            let code = match k {
+                K::ConnectionReset => Some(104),
+                K::ConnectionAborted => Some(103),
+                K::BrokenPipe => Some(32),
+                K::TimedOut => Some(110),
+                K::PermissionDenied => Some(13),
+                K::WouldBlock => Some(11),
+                _ => None,
+            };
+            match code {
+                Some(c) if io::Error::from_raw_os_error(c).kind() == k => io::Error::from_raw_os_error(c),
+                _ => io::Error::new(k, "injected"),
+            }
+        }
+        3 => io::Error::new(k, io::Error::from(other)),
+        _ => io::Error::new(k, Wrapped(io::Error::new(if k == K::UnexpectedEof { K::ConnectionReset } else { K::UnexpectedEof }, "inner"))),
     }
 }
 
